@@ -117,7 +117,10 @@ func (r *Registry) addImport(ctx context.Context, pkg TypesPackage) *Package {
 		Str("dst-pkg-path", r.dstPkgPath).
 		Logger()
 	log.Debug().Msg("adding import")
-	if path == r.dstPkgPath && r.inPackage {
+	// The file never imports the package it belongs to. A destination path equal
+	// to the source package's path is only the same package when the mock is
+	// generated in-package (it is the external _test package otherwise).
+	if path == r.dstPkgPath && (r.inPackage || (r.srcPkg != nil && path != r.srcPkg.PkgPath)) {
 		log.Debug().Msg("path equals dst-pkg-path, not adding import")
 		return nil
 	} else {
